@@ -308,6 +308,9 @@ func main() {
 		}
 	}
 	e1.RunAll(r, scenarios, 0)
+	if r.Worker == "" && r.Replay == "" {
+		e1.Conformance(r)
+	}
 	r.Rule(fmt.Sprintf("(a) every datagram-class sequence of length <= %d over %d classes x stop signal after every prefix x 1-2 senders, preemption bound 0; (b) every sequence of length <= %d over {valid, v6.62, malformed} x stop after every prefix under all interleavings with <= %d preemptions (thorough: bound 3 on length <= 1); (c) two consecutive Listen runs on the same address. distinct = distinct (datagrams read, events, errors) labels", contentLen, len(classes), schedLen, schedBound))
 	r.Assume("a datagram counts as received when a read on the listen socket returned it (datagrams still queued when the socket is closed were never received)")
 	r.Assume("calendar-invalid (but BCD) timestamps are outside the alphabet: the library documents decoding them as 'no value'")
